@@ -8,10 +8,11 @@ LAWS_EXACT = ("const", "linear3", "linear7", "squared", "exp")
 LAWS_ALL = ("const", "log", "sqrt", "linear3", "linear7", "squared", "exp")
 
 FAULT_FOCUS = {
-    "C01": ["dep_pending_parent", "dep_order", "dep_late"],
+    "C01": ["dep_pending_parent", "dep_order", "dep_late", "construct_completed", "construct_completed", "construct_assigned"],
     "C02": ["construct_completed", "construct_assigned", "construct_dup", "construct_cpu0", "construct_ram0",
             "construct_empty"],
-    "C03": ["oversell_cpu", "oversell_ram", "oversell_cpu", "oversell_ram", "sus_not_boundary", "opcount", "opcount"],
+    "C03": ["oversell_cpu", "oversell_ram", "oversell_cpu", "oversell_ram", "sus_not_boundary", "opcount", "opcount",
+            "construct_ram0", "construct_cpu0"],
     "C04": ["oversell_ram", "oversell_ram", "oversell_during_writeout"],
     "C05": [],
     "C09": ["pool_range_asg", "pool_range_sus", "pool_range_asg"],
@@ -122,7 +123,8 @@ def gen(r, focus, tier="quick"):
     if exact:
         tps = r.choice([1, 1, 2, 2, 4, 8, 16, 64, 1024])
     else:
-        tps = r.choice([1, 2, 3, 3, 5, 7, 10, 10, 16, 30, 100, 250, 1000, 10 ** 4, 10 ** 5])
+        tps = r.choice([1, 2, 3, 3, 5, 7, 10, 10, 16, 30, 100, 250, 1000, 10 ** 4, 10 ** 5, 3000, 30000, 99999,
+                        r.randint(2, 1000), r.randint(1000, 10 ** 5)])      # (any rate, not only divisors of a million)
     unit = F(20, tps)
     pools = r.choice([1, 1, 1, 2, 2, 3, 4]) if focus != "C09" else r.choice([1, 2, 2, 3, 4])
     cpus = r.choice([1, 2, 4, 8, 16, 64]) if exact else r.choice([1, 2, 3, 4, 6, 10, 16, 64, 64, 128])
